@@ -92,6 +92,28 @@ func cvRun(m map[string]string) string {
 				return "harness-error"
 			}
 		}
+		// links=<rel>><target rel>,…: symbolic links to files of the tree. A reader of the tree (and the storage
+		// that later opens the same paths) sees a file with the target's content there.
+		for _, t := range commaList(m["links"]) {
+			parts := strings.SplitN(t, ">", 2)
+			if len(parts) != 2 {
+				continue
+			}
+			for _, f := range files {
+				if f.rel != parts[1] {
+					continue
+				}
+				lp := filepath.Join(root, filepath.FromSlash(parts[0]))
+				if err := os.MkdirAll(filepath.Dir(lp), 0o755); err != nil {
+					return "harness-error"
+				}
+				if err := os.Symlink(filepath.Join(root, filepath.FromSlash(f.rel)), lp); err != nil {
+					return "harness-error"
+				}
+				files = append(files, cvFile{rel: parts[0], size: f.size, seed: f.seed})
+				break
+			}
+		}
 	}
 	// expected piece table: concatenation in lexical walk order, independent of the code under test
 	sorted := append([]cvFile(nil), files...)
@@ -235,8 +257,25 @@ func genCreateVerify(r *Rng, n int, tier string) []Case {
 			}
 			parts = append(parts, fmt.Sprintf("%s:%d:%d", rel, size, r.Intn(200)))
 		}
+		links := ""
+		if mode == "dir" && len(parts) > 0 && r.Chance(25) {
+			// a symbolic link to one of the files, under a name that is not in use
+			tgt := strings.SplitN(parts[r.Intn(len(parts))], ":", 2)[0]
+			for _, nm := range []string{"link", "sub/link.txt", "0link", "zz-link"} {
+				ok := !used[nm]
+				for u := range used {
+					if strings.HasPrefix(u, nm+"/") || strings.HasPrefix(nm, u+"/") {
+						ok = false
+					}
+				}
+				if ok && r.Chance(70) {
+					links = " links=" + nm + ">" + tgt
+					break
+				}
+			}
+		}
 		cases = append(cases, Case{ID: fmt.Sprintf("create-verify-%d", i+1), Ops: []string{
-			fmt.Sprintf("createverify pl=%d mode=%s files=%s", pl, mode, joinOrDash(parts))}})
+			fmt.Sprintf("createverify pl=%d mode=%s files=%s%s", pl, mode, joinOrDash(parts), links)}})
 	}
 	return cases
 }
